@@ -107,6 +107,13 @@ def run(rep, tier):
             wk = ops.wrapper_kind(f)
             for p in ps:
                 acc = [e for e in p.events if e.kind == "CALL" and q.short(e.a) in ("operator[]", "at") and e.c == ("addr", ("fld", ops.THIS_OBJ, "data"))]
+                if not acc:
+                    # equivalent idiom: element located by byte offset from the wrapper's own address: this + index*sizeof(element)
+                    why = offset_idiom_ok(db, p, rhs, T, wk)
+                    if why is None:
+                        continue
+                    rep.violation("R-C17-element", site(f) + " [array]", why, f["loc"], inst)
+                    break
                 if len(acc) != 1:
                     rep.violation("R-C17-element", site(f) + " [array]", "the wrapper's own storage is not indexed exactly once", f["loc"], inst)
                     break
@@ -145,6 +152,24 @@ def run(rep, tier):
     rep.require(len(idx_types) >= 10, "only %d index types seen" % len(idx_types))
     rep.extra.update({"instantiations": n, "index_types": sorted(x for x in idx_types if x)})
     rep.assumptions += ["std::array::operator[] designates element i of its storage"]
+
+
+def offset_idiom_ok(db, p, rhs, T, wk):
+    """returned reference is *(this + k*index) with k the element size of the wrapper's own layout; returns None if fine, else the reason"""
+    from ..engine import lin as _lin
+    r = p.retval
+    if not (isinstance(r, tuple) and r[:1] == ("deref",)):
+        return "the element is not taken from the wrapper's own storage (returned %s)" % fmt(r)[:100]
+    off = _lin("-", r[1], ("this",))
+    if not (isinstance(off, tuple) and off[0] in ("lin", "c")):
+        off = ("lin", 0, ((off, 1),))
+    try:
+        want = abi.size_align(db, T.get("el"), abi.abi_of(db.label) if wk == "tainted_volatile" else "host")[0]
+    except abi.Unknown:
+        return None
+    if off[0] == "lin" and off[1] == 0 and len(off[2]) == 1 and ops.is_value_of(ops.strip_casts(off[2][0][0]), rhs, allow_cast=True) and off[2][0][1] == want:
+        return None
+    return "the element address is this + %s, expected this + %d*index (element size of the %s layout)" % (fmt(off)[:80], want, "sandbox" if wk == "tainted_volatile" else "application")
 
 
 def check_forward_arr(rep, db, f, inst):
